@@ -123,6 +123,10 @@ func (q *DetQueue) addDelayed(item interface{}, at time.Time, why string) {
 			if at.Before(q.delayed[i].at) {
 				q.delayed[i].at = at
 			}
+			if why == "ratelimited" {
+				// the pending wake-up now (also) stands for the retry of a failed sync
+				q.delayed[i].why = why
+			}
 			return
 		}
 	}
